@@ -161,13 +161,33 @@ def helpers_work(n, variant, out):
         A4 = mats[:, :, :K].reshape(n, n, nel, q)
         V3 = V[:, :K].reshape(n, nel, q)
         B4 = B[:, :, :K].reshape(n, n, nel, q)
-        chk('mul(A,x)', np.asarray(H.mul(conv(A4), conv(V3))).reshape(n, K), np.einsum('ijk,jk->ik', mats[:, :, :K], V[:, :K]), lab)
+        def shaped(name, fn, shape):
+            # a helper that returns another rank / size in this layout is a violation, not a harness crash
+            try:
+                r = np.asarray(fn())
+                if r.size != int(np.prod(shape)):
+                    out.violation(sig0 + f"{name}|{n}x{n}|shape", f"{name} on {n}x{n} tensors with trailing shape {lab} returns shape "
+                                  f"{r.shape}", case={'helper': name, 'n': n, 'trailing': lab})
+                    return None
+                return r.reshape(shape)
+            except Exception as e:
+                out.violation(sig0 + f"{name}|{n}x{n}|exception", f"{name} on {n}x{n} tensors with trailing shape {lab} raised {e!r}",
+                              case={'helper': name, 'n': n, 'trailing': lab})
+                return None
+        g_ = shaped('mul(A,x)', lambda: H.mul(conv(A4), conv(V3)), (n, K))
+        if g_ is not None:
+            chk('mul(A,x)', g_, np.einsum('ijk,jk->ik', mats[:, :, :K], V[:, :K]), lab)
         if variant == 'jax':
-            chk('mul(A,B)', np.asarray(H.mul(conv(A4), conv(B4))).reshape(n, n, K),
-                np.einsum('ijk,jlk->ilk', mats[:, :, :K], B[:, :, :K]), lab)
-        chk('ddot(A,B)', np.asarray(H.ddot(conv(A4), conv(B4))).reshape(K), np.einsum('ijk,ijk->k', mats[:, :, :K], B[:, :, :K]), lab)
-        chk('dot(x,y)', np.asarray(H.dot(conv(V3), conv(V3[:, ::-1]))).reshape(K) if nel > 1 else np.asarray(H.dot(conv(V3), conv(V3))).reshape(K),
-            (V[:, :K].reshape(n, nel, q) * (V[:, :K].reshape(n, nel, q)[:, ::-1] if nel > 1 else V[:, :K].reshape(n, nel, q))).sum(axis=0).reshape(K), lab)
+            g_ = shaped('mul(A,B)', lambda: H.mul(conv(A4), conv(B4)), (n, n, K))
+            if g_ is not None:
+                chk('mul(A,B)', g_, np.einsum('ijk,jlk->ilk', mats[:, :, :K], B[:, :, :K]), lab)
+        g_ = shaped('ddot(A,B)', lambda: H.ddot(conv(A4), conv(B4)), (K,))
+        if g_ is not None:
+            chk('ddot(A,B)', g_, np.einsum('ijk,ijk->k', mats[:, :, :K], B[:, :, :K]), lab)
+        V3r = V3[:, ::-1] if nel > 1 else V3
+        g_ = shaped('dot(x,y)', lambda: H.dot(conv(V3), conv(np.ascontiguousarray(V3r))), (K,))
+        if g_ is not None:
+            chk('dot(x,y)', g_, (V3 * V3r).sum(axis=0).reshape(K), lab)
     # vectors: all ordered pairs
     U = np.repeat(vecs, nv, axis=1)
     W = np.tile(vecs, (1, nv))
